@@ -107,14 +107,15 @@ func c01Cfgs(c *chk.Ctx) []placeCfg {
 			nShards:   3,
 			sizes:     [][2]int64{{40, 40}},
 			copyOpts:  []copyOpt{coAbsent, coN5, coN2, coN0u, coT5, coT2, coN5d, coT0u},
-			extras:    [][]int64{{0, 0, 0}, {75, 0, 0}, {0, 75, 0}, {75, 75, 0}},
+			extras:    [][]int64{{0, 0, 0}, {75, 0, 0}, {0, 75, 0}},
 			disc0:     []bool{true, false},
 			lastClass: []int{shInSync, shNotReady, shStatusFail, shHashAcceptStill},
 			firstToo:  true,
+			unknown0:  true,
 			heads:     []int64{0, 100},
 			idles:     []int64{0, 3600},
 			newTgt:    []int{0, 1},
-			postFail:  []int{-1, 0},
+			postFail:  []int{-1},
 			noRelieve: []bool{false},
 		},
 	}
@@ -130,6 +131,7 @@ func c01Cfgs(c *chk.Ctx) []placeCfg {
 			disc0:     []bool{true, false},
 			lastClass: []int{shInSync, shNotReady, shStatusFail, shHashAcceptStill},
 			firstToo:  true,
+			unknown0:  true,
 			heads:     []int64{0, 100},
 			idles:     []int64{0, 3600},
 			newTgt:    []int{0, 2},
@@ -144,6 +146,7 @@ func c01Cfgs(c *chk.Ctx) []placeCfg {
 			disc0:     []bool{true, false},
 			lastClass: []int{shInSync, shNotReady, shStatusFail, shRuntimeFail, shHashAcceptStill},
 			firstToo:  true,
+			unknown0:  true,
 			heads:     []int64{0, 100},
 			idles:     []int64{0, 3600},
 			newTgt:    []int{0, 1},
@@ -158,6 +161,7 @@ func c01Cfgs(c *chk.Ctx) []placeCfg {
 			disc0:     []bool{true, false},
 			lastClass: []int{shInSync, shNotReady},
 			firstToo:  true,
+			unknown0:  true,
 			heads:     []int64{0, 100},
 			idles:     []int64{0, 3600},
 			newTgt:    []int{0, 1},
